@@ -11,6 +11,7 @@ import (
 	"fmt"
 	"os"
 	"reflect"
+	"strings"
 	"time"
 
 	jose "github.com/go-jose/go-jose/v4"
@@ -25,6 +26,7 @@ import (
 )
 
 const issuer = "https://op.example.com"
+const baseIssuer = issuer
 
 var (
 	kids      = []string{"k1", "k2", "k3"}
@@ -74,8 +76,8 @@ func (g *gen) findCase() {
 	var keys []tok.JWK
 	// flow first: pick the query, then mostly build a list in which it can be found
 	alg := drv.Pick(r, append(append([]string{}, allAlgs...), "RS256", "ES256", "EdDSA", "HS256", "none", "", "RSxyz", "ESP"))
-	kid := drv.Pick(r, []string{"", "", "k1", "k1", "k2", "k9"})
-	use := drv.Pick(r, []string{"sig", "sig", "sig", "sig", "enc", ""})
+	kid := drv.Pick(r, []string{"", "", "k1", "k1", "k2", "k9", "null", "K1"})
+	use := drv.Pick(r, []string{"sig", "sig", "sig", "sig", "enc", "", "SIG"})
 	fit := g.pool.ForAlg(alg)
 	for i := 0; i < n; i++ {
 		j := g.randomJWK(true)
@@ -88,6 +90,11 @@ func (g *gen) findCase() {
 		}
 		if r.Chance(1, 3) {
 			j.Kid = kid
+		} else if r.Chance(1, 8) {
+			j.Kid = nearID(r, kid)
+		}
+		if r.Chance(1, 12) {
+			j.Use = drv.Pick(r, []string{"SIG", "sig ", "Sig", "ENC", "signature"})
 		}
 		keys = append(keys, j)
 	}
@@ -158,11 +165,17 @@ func (g *gen) publishedKeys(s *scenario) ([]tok.JWK, string) {
 	r := g.r
 	var keys []tok.JWK
 	name := ""
-	pk := r.IntN(14)
+	pk := r.IntN(16)
 	if s.valid {
 		pk = 13
 	}
 	switch pk {
+	case 14: // a key id that differs from the header's only by case / white space / slash
+		name = "kid_near"
+		keys = append(keys, tok.JWK{Kid: nearID(r, s.kid), Use: "sig", Key: s.signer})
+	case 15: // a use that is almost "sig"
+		name = "use_near"
+		keys = append(keys, tok.JWK{Kid: s.kid, Use: drv.Pick(r, []string{"SIG", "Sig", "sig ", " sig", "sign", "signature", "si"}), Key: s.signer})
 	case 0:
 		name = "absent"
 	case 1:
@@ -204,6 +217,34 @@ func (g *gen) publishedKeys(s *scenario) ([]tok.JWK, string) {
 		}
 	}
 	return keys, name
+}
+
+// longExt: a payload beyond 1 KiB / 4 KiB (size dimension): a long private claim,
+// and an alternative payload that differs from it in its very last character only.
+func longExt(r drv.Rand, c tok.Claims) (tok.Claims, tok.Claims) {
+	n := drv.Pick(r, []int{1100, 1100, 4200})
+	b := make([]byte, n)
+	for i := range b {
+		b[i] = "0123456789abcdef"[r.IntN(16)]
+	}
+	c.Extra = string(b)
+	evil := c
+	b[n-1] ^= 1
+	evil.Extra = string(b)
+	return c, evil
+}
+
+// nearID: an identifier that a case-insensitive / trimming comparison would take for id.
+func nearID(r drv.Rand, id string) string {
+	if id == "" {
+		return drv.Pick(r, []string{" ", "\x00", "null"})
+	}
+	c := []string{strings.ToUpper(id), id + " ", " " + id, id + "/", id + "\n", id + "\x00", strings.Replace(id, "k", "\u212a", 1), id[:len(id)-1]}
+	x := drv.Pick(r, c)
+	if x == id {
+		return id + " "
+	}
+	return x
 }
 
 func (g *gen) keySet(s *scenario, kind string) {
@@ -303,7 +344,7 @@ func (g *gen) pickSigner(algPool []string) *scenario {
 	r := g.r
 	alg := drv.Pick(r, algPool)
 	s := &scenario{alg: alg, signer: drv.Pick(r, g.pool.ForAlg(alg))}
-	s.kid = drv.Pick(r, []string{"k1", "k1", "k2", ""})
+	s.kid = drv.Pick(r, []string{"k1", "k1", "k1", "k2", "k2", "", "", "null", "0", "K1"})
 	return s
 }
 
@@ -375,6 +416,9 @@ func pickMutation(r drv.Rand, benign int) string {
 	if r.IntN(100) < benign {
 		return drv.Pick(r, []string{"none", "none", "none", "none", "typ", "ws_outer", "ws_inner", "flat_same", "general_one"})
 	}
+	if r.Chance(1, 5) { // the mutations that put OTHER bytes where the claims are read from
+		return drv.Pick(r, []string{"flat_evil", "two_sigs_evil", "payload_swap", "reencode", "flat_evil"})
+	}
 	return drv.Pick(r, tok.Mutations[4:])
 }
 
@@ -434,6 +478,11 @@ func (g *gen) checkSigCase() {
 	c := tok.Claims{Iss: issuer, Sub: "user-1", Aud: []string{"client-a"}, Exp: now + 3600, Iat: now - 5, Extra: fmt.Sprintf("x%d", r.IntN(1000))}
 	evil := c
 	evil.Sub = "attacker"
+	size := "small"
+	if r.Chance(1, 12) {
+		c, evil = longExt(r, c)
+		size = "long"
+	}
 	mut := pickMutation(r, 45)
 	if s.valid {
 		mut = drv.Pick(r, []string{"none", "none", "typ", "flat_same"})
@@ -463,7 +512,7 @@ func (g *gen) checkSigCase() {
 	}
 	in := emit.Ctor("ICheckSig", emit.StrList(allowed), s.ks.Coq(), t.Coq(), emit.Str(parsed))
 	g.w.Add(emit.Case{Input: in, Observed: obs,
-		Tags:  []string{"kind=checksig", "mut=" + mut, "ks=" + s.ksKind, "keys=" + s.scenName, "alg=" + s.alg, "parsed=" + ptag, "kidhdr=" + tagStr(s.kid), "allow=" + class},
+		Tags:  []string{"kind=checksig", "mut=" + mut, "ks=" + s.ksKind, "keys=" + s.scenName, "alg=" + s.alg, "parsed=" + ptag, "kidhdr=" + tagStr(s.kid), "allow=" + class, "payload_size=" + size},
 		Human: map[string]any{"token": t.Raw, "allowed": allowed, "mut": mut, "scenario": s.scenName}})
 }
 
@@ -537,7 +586,7 @@ func (g *gen) verifyCase(kind string) {
 		}
 		switch {
 		case cm < 5:
-			c.Iss, claimMut = "https://evil.example.com", "iss"
+			c.Iss, claimMut = drv.Pick(r, []string{"https://evil.example.com", issuer + "/", "https://OP.example.com", issuer + " ", "HTTPS://op.example.com"}), "iss"
 		case cm < 8:
 			c.Aud, claimMut = []string{"someone-else"}, "aud"
 		case cm < 11:
@@ -547,7 +596,7 @@ func (g *gen) verifyCase(kind string) {
 		c = tok.Claims{Iss: issuer, Sub: "user-1", Aud: []string{s.client, "api"}, Exp: now + 3600, Iat: now - 10, ClientID: s.client, Extra: ext}
 		switch {
 		case cm < 5:
-			c.Iss, claimMut = "https://evil.example.com", "iss"
+			c.Iss, claimMut = drv.Pick(r, []string{"https://evil.example.com", issuer + "/", "https://OP.example.com", issuer + " ", "HTTPS://op.example.com"}), "iss"
 		case cm < 10:
 			c.Exp, claimMut = now-3600, "expired"
 		}
@@ -565,7 +614,7 @@ func (g *gen) verifyCase(kind string) {
 		}
 		switch {
 		case cm < 5:
-			c.Iss, claimMut = "https://evil.example.com", "iss"
+			c.Iss, claimMut = drv.Pick(r, []string{"https://evil.example.com", issuer + "/", "https://OP.example.com", issuer + " ", "HTTPS://op.example.com"}), "iss"
 		case cm < 25:
 			c.Exp, claimMut = now-3600, "expired" // the path that still returns claims
 		case cm < 30:
@@ -584,7 +633,7 @@ func (g *gen) verifyCase(kind string) {
 		case cm < 5:
 			c.Sub, claimMut = "someone-else", "sub"
 		case cm < 9:
-			c.Aud, claimMut = []string{"https://other-op.example.com"}, "aud"
+			c.Aud, claimMut = []string{drv.Pick(r, []string{"https://other-op.example.com", issuer + "/", "https://OP.example.com", " " + issuer})}, "aud"
 		case cm < 12:
 			c.Exp, claimMut = now-3600, "expired"
 		}
@@ -596,7 +645,7 @@ func (g *gen) verifyCase(kind string) {
 		case cm < 4:
 			c.ClientID, c.Iss, claimMut = "client-z", "client-z", "client"
 		case cm < 8:
-			c.Aud, claimMut = []string{"https://other-op.example.com"}, "aud"
+			c.Aud, claimMut = []string{drv.Pick(r, []string{"https://other-op.example.com", issuer + "/", "https://OP.example.com", " " + issuer})}, "aud"
 		case cm < 11:
 			c.RType, claimMut = "id_token", "rtype"
 		case cm < 14:
@@ -647,6 +696,11 @@ func (g *gen) verifyCase(kind string) {
 		}
 	} else {
 		evil.Sub = "admin"
+	}
+	size := "small"
+	if opts.ExtraKey != "" && r.Chance(1, 12) {
+		c, evil = longExt(r, c)
+		size = "long"
 	}
 	mut := pickMutation(r, 62)
 	if s.valid {
@@ -732,7 +786,7 @@ func (g *gen) verifyCase(kind string) {
 		obs = "(OVerify (Reject EOther))" // harness self-test: a wrong observation must be flagged
 	}
 	in := emit.Ctor("IVerify", kindCoq, v.Coq(), s.ks.Coq(), t.Coq(), m.Coq(), emit.Z(t0), emit.Z(t1))
-	tags := []string{"kind=verify", "v=" + kind, "mut=" + mut, "ks=" + s.ksKind, "keys=" + s.scenName, "alg=" + s.alg, "claims=" + claimMut, "kidhdr=" + tagStr(s.kid), "allow=" + class}
+	tags := []string{"kind=verify", "v=" + kind, "mut=" + mut, "ks=" + s.ksKind, "keys=" + s.scenName, "alg=" + s.alg, "claims=" + claimMut, "kidhdr=" + tagStr(s.kid), "allow=" + class, "payload_size=" + size}
 	if mut == "payload_null" {
 		tags = append(tags, "payload=nonobject")
 	}
@@ -802,6 +856,10 @@ func (g *gen) remoteSeqCase() {
 	now := time.Now().Unix()
 	hang := false
 	pan := ""
+	// tokens presented (or genuinely signed) at earlier steps: later tokens are
+	// partly DERIVED from them by exchanging one of header / payload / signature
+	var hist []histTok
+	derived := map[string]bool{}
 	for st := 0; st < n && pan == "" && !hang; st++ {
 		act := "keep"
 		fail := false
@@ -856,6 +914,18 @@ func (g *gen) remoteSeqCase() {
 		spec := tok.BuildSpec{Signer: signer, Alg: sg.alg, Kid: kid, Claims: c, Payload: c.Payload(tok.PayloadOpts{ExtraKey: "ext"}), Mut: mut,
 			OtherKid: drv.Pick(r, []string{"k1", "k2", "k9"}), EvilClaims: c, EvilPayload: c.Payload(tok.PayloadOpts{}), AltPayload: c.Payload(tok.PayloadOpts{Spaces: true}), Other: g.pool.Keys[(signer.Mat+1)%8]}
 		t, m := tok.Build(r, spec)
+		if t.Spliceable() && m.Kind == "ok" {
+			fresh := histTok{t, m}
+			if len(hist) > 0 && r.Chance(9, 20) {
+				var how string
+				t, m, how = spliceFrom(r, fresh, hist)
+				derived[how] = true
+			}
+			hist = append(hist, fresh)
+			if t.Raw != fresh.t.Raw {
+				hist = append(hist, histTok{t, m})
+			}
+		}
 		parsed := m.Bytes
 		if m.Kind != "ok" {
 			parsed = t.Payload
@@ -893,7 +963,51 @@ func (g *gen) remoteSeqCase() {
 			tags = append(tags, "act_"+a+"=1")
 		}
 	}
+	for _, h := range spliceHows {
+		if derived[h] {
+			tags = append(tags, "derived_"+h+"=1")
+		}
+	}
 	g.w.Add(emit.Case{Input: in, Observed: o, Tags: tags, Human: map[string]any{"actions": acts, "allowed": allowed}})
+}
+
+// histTok is a token of a sequence together with its middle-segment description.
+type histTok struct {
+	t tok.Token
+	m tok.Middle
+}
+
+var spliceHows = []string{"replay", "old_sig", "old_sig_new_payload", "old_sig_new_header", "old_payload", "old_header", "cross"}
+
+// spliceFrom derives the token to present from the fresh (genuinely built) one
+// and the tokens of earlier steps: an exact replay of an earlier token, or a
+// recombination in which exactly one of the three segments comes from elsewhere
+// (the signature of a token this instance has seen, on a new payload / under a
+// new header; the old payload or old header under the new signature), or a free
+// cross of three sources.
+func spliceFrom(r drv.Rand, fresh histTok, hist []histTok) (tok.Token, tok.Middle, string) {
+	old := drv.Pick(r, hist)
+	how := drv.Pick(r, spliceHows)
+	var t tok.Token
+	var m tok.Middle
+	switch how {
+	case "replay":
+		t, m = tok.Splice(old.t, old.t, old.m, old.t)
+	case "old_sig": // new header and payload under an old signature
+		t, m = tok.Splice(fresh.t, fresh.t, fresh.m, old.t)
+	case "old_sig_new_payload": // old header + old signature, payload exchanged
+		t, m = tok.Splice(old.t, fresh.t, fresh.m, old.t)
+	case "old_sig_new_header": // old payload + old signature, header exchanged
+		t, m = tok.Splice(fresh.t, old.t, old.m, old.t)
+	case "old_payload":
+		t, m = tok.Splice(fresh.t, old.t, old.m, fresh.t)
+	case "old_header":
+		t, m = tok.Splice(old.t, fresh.t, fresh.m, fresh.t)
+	default:
+		a, b, c := drv.Pick(r, hist), drv.Pick(r, hist), drv.Pick(r, hist)
+		t, m = tok.Splice(a.t, b.t, b.m, c.t)
+	}
+	return t, m, how
 }
 
 // verifySeqCase: ONE JWTProfileVerifier (storage-backed or with a key set)
@@ -975,6 +1089,318 @@ func (g *gen) verifySeqCase() {
 		Human: map[string]any{"issuer<-signer": who}})
 }
 
+// instanceSeqCase: ONE verifier of the given kind - and the ONE key set /
+// storage behind it - is presented 2-4 tokens in a row. A family of genuinely
+// signed tokens is made first (two signers known to the key set under their own
+// kids, full / alternative / sparse claims, a stranger's token under a known
+// kid); each step presents a member as it is or a recombination
+// header(X).payload(Y).signature(Z) of members - mostly with exactly ONE segment
+// exchanged - in random order, so that a derived token follows or precedes the
+// verified token it was derived from. Every answer is judged on its own: what an
+// instance has verified before never makes another header / payload believable.
+func (g *gen) instanceSeqCase(kind string) {
+	r := g.r
+	fixedDefault := kind == "jwt" || kind == "ro"
+	algPool := allAlgs
+	if fixedDefault {
+		algPool = defAlgs
+	}
+	alg1 := drv.Pick(r, algPool)
+	key1 := drv.Pick(r, g.pool.ForAlg(alg1))
+	alg2 := alg1
+	if r.Bool() {
+		alg2 = drv.Pick(r, algPool)
+	}
+	key2 := g.pool.Other(r, key1, alg2)
+	if key2 == nil {
+		alg2 = drv.Pick(r, []string{"RS256", "PS256"})
+		key2 = g.pool.Other(r, key1, alg2)
+	}
+	// a stranger: not in the key set, signs under the first signer's kid
+	var key3 *tok.Key
+	alg3 := alg1
+	for _, k := range g.pool.ForAlg(alg1) {
+		if k != key1 && k != key2 {
+			key3 = k
+		}
+	}
+	if key3 == nil {
+		for _, k := range g.pool.Keys[:8] {
+			if k != key1 && k != key2 {
+				key3, alg3 = k, k.Algs[0]
+			}
+		}
+	}
+	client := drv.Pick(r, clientIDs)
+	other := "client-b"
+	if client == other {
+		other = "client-a"
+	}
+	j1 := tok.JWK{Kid: "k1", Use: drv.Pick(r, []string{"sig", "sig", ""}), Key: key1}
+	j2 := tok.JWK{Kid: "k2", Use: "sig", Key: key2}
+	pub := []tok.JWK{j1, j2}
+	if r.Chance(1, 3) {
+		pub = append(pub, g.randomJWK(false))
+		pub[2].Kid = "k7"
+	}
+	if r.Bool() {
+		pub[0], pub[1] = pub[1], pub[0]
+	}
+	var ks tok.KeySetDesc
+	ksKind := "profile"
+	switch kind {
+	case "rp":
+		ksKind = "remote"
+	case "at", "hint":
+		ksKind = drv.Pick(r, []string{"openid", "openid", "openid", "remote", "remote", "static"})
+	case "jwt":
+		ksKind = drv.Pick(r, []string{"profile", "profile", "profile", "openid"})
+	}
+	switch ksKind {
+	case "remote": // the endpoint serves the same list throughout; cache cold or warm
+		ks = tok.KeySetDesc{Kind: "remote", Served: pub, Skip: r.Chance(1, 4)}
+		if r.Bool() {
+			ks.Cached = pub
+		}
+	case "openid":
+		ks = tok.KeySetDesc{Kind: "openid", Keys: pub}
+	case "static":
+		ks = tok.KeySetDesc{Kind: "static", Static: j1}
+	default:
+		ks = tok.KeySetDesc{Kind: "profile", Store: []tok.StoreEntry{{Client: client, Kid: "k1", Key: j1}, {Client: client, Kid: "k2", Key: j2}}}
+		if key3 != nil && r.Chance(2, 3) { // the other client has its own key under the same kid
+			ks.Store = append(ks.Store, tok.StoreEntry{Client: other, Kid: "k1", Key: tok.JWK{Kid: "k1", Use: "sig", Key: key3}})
+		}
+	}
+	v := tok.VCfg{Issuer: issuer, Client: client}
+	if !fixedDefault {
+		v.Algs = []string{alg1}
+		if alg2 != alg1 {
+			v.Algs = append(v.Algs, alg2)
+		}
+		if r.Chance(1, 4) {
+			v.Algs = append([]string{drv.Pick(r, allAlgs)}, v.Algs...)
+		}
+	}
+	now := time.Now().Unix()
+	ext := fmt.Sprintf("q%d", r.IntN(100000))
+	opts := g.payloadOpts("ext")
+	// full, alternative ("the attacker's wish") and sparse claims, all acceptable as far as claims go
+	var c, c2, c3 tok.Claims
+	switch kind {
+	case "rp":
+		v.Offset = drv.Pick(r, []time.Duration{0, time.Second})
+		c = tok.Claims{Iss: issuer, Sub: "user-1", Aud: []string{client}, Azp: client, Exp: now + 3600, Iat: now - 10, AuthT: now - 60,
+			Acr: "silver", AtHash: "aGFzaA", ClientID: client, Extra: ext}
+		c3 = tok.Claims{Iss: issuer, Sub: "user-3", Aud: []string{client}, Exp: now + 1800, Iat: now - 20}
+		if r.Bool() {
+			n := "nonce-" + ext
+			v.Nonce = &n
+			c.Nonce, c3.Nonce = n, n
+		}
+		c2 = c
+		c2.Sub, c2.Extra = "admin", "evil"
+	case "at":
+		c = tok.Claims{Iss: issuer, Sub: "user-1", Aud: []string{client, "api"}, Azp: client, Exp: now + 3600, Iat: now - 10, ClientID: client, Extra: ext}
+		c3 = tok.Claims{Iss: issuer, Sub: "user-3", Exp: now + 1800}
+		c2 = c
+		c2.Sub, c2.Extra, c2.Aud = "admin", "evil", []string{client, "admin-api"}
+	case "hint":
+		c = tok.Claims{Iss: issuer, Sub: "user-1", Aud: []string{client}, Azp: client, Exp: now + 3600, Iat: now - 600, AuthT: now - 700, Acr: "gold",
+			Nonce: "n-" + ext, AtHash: "aGFzaA", Extra: ext}
+		c3 = tok.Claims{Iss: issuer, Sub: "user-3", Aud: []string{client}, Exp: now + 1800, Iat: now - 20}
+		c2 = c
+		c2.Sub, c2.Extra = "admin", "evil"
+		if r.Chance(1, 3) {
+			c2.Exp = now - 3600 // the answer that hands back claims together with an error
+		}
+	case "jwt":
+		v.Offset = drv.Pick(r, []time.Duration{0, time.Second})
+		v.MaxIAT = drv.Pick(r, []time.Duration{0, time.Hour})
+		opts.ExtraKey = ""
+		c = tok.Claims{Iss: client, Sub: client, Aud: []string{issuer}, Exp: now + 3600, Iat: now - 10}
+		c3 = tok.Claims{Iss: client, Sub: client, Aud: []string{issuer, "x"}, Exp: now + 1800, Iat: now - 30}
+		c2 = tok.Claims{Iss: other, Sub: other, Aud: []string{issuer}, Exp: now + 3600, Iat: now - 10}
+	case "ro":
+		opts.ExtraKey = "state"
+		opts.Scope = "openid email"
+		c = tok.Claims{Iss: client, Aud: []string{issuer}, ClientID: client, RType: "code", Nonce: "n-" + ext, Extra: "s-" + ext}
+		c3 = tok.Claims{Iss: client, Aud: []string{issuer}, ClientID: client}
+		c2 = c
+		c2.Nonce, c2.Extra = "n-evil", "s-evil"
+	}
+	sign := func(key *tok.Key, alg, kid, mut string, cl tok.Claims, o tok.PayloadOpts) histTok {
+		t, m := tok.Build(r, tok.BuildSpec{Signer: key, Alg: alg, Kid: kid, Claims: cl, Payload: cl.Payload(o), Mut: mut})
+		return histTok{t, m}
+	}
+	o3 := opts
+	o3.Reverse = !o3.Reverse
+	fam := []histTok{
+		sign(key1, alg1, "k1", "none", c, opts),
+		sign(key1, alg1, "k1", "none", c2, opts),
+		sign(key2, alg2, "k2", "none", drv.Pick(r, []tok.Claims{c, c2, c3}), opts),
+		sign(key1, alg1, drv.Pick(r, []string{"k1", "k1", ""}), drv.Pick(r, []string{"none", "typ"}), c3, o3),
+	}
+	known := len(fam)
+	if key3 != nil {
+		fam = append(fam, sign(key3, alg3, "k1", "none", c2, opts))
+	}
+
+	// the ONE instance
+	deleg := kind == "jwt" && r.Chance(1, 3)
+	var ksObj oidc.KeySet
+	if ks.Kind != "profile" {
+		ksObj = ks.Build()
+	}
+	var rpV *rp.IDTokenVerifier
+	var atV *op.AccessTokenVerifier
+	var hintV *op.IDTokenHintVerifier
+	var jwtV *op.JWTProfileVerifier
+	storage := &tok.FakeStorage{Store: ks.Store}
+	kindCoq := ""
+	switch kind {
+	case "rp":
+		x := rp.IDTokenVerifier(v.Verifier(ksObj))
+		rpV, kindCoq = &x, "VRpIDToken"
+	case "at":
+		x := op.AccessTokenVerifier(v.Verifier(ksObj))
+		atV, kindCoq = &x, "VAccessToken"
+	case "hint":
+		x := op.IDTokenHintVerifier(v.Verifier(ksObj))
+		hintV, kindCoq = &x, "VIDTokenHint"
+	case "jwt":
+		check := op.SubjectCheck(tok.SubjectCheck)
+		if deleg {
+			check = op.SubjectCheck(func(*oidc.JWTTokenRequest) error { return nil })
+		}
+		if ks.Kind == "profile" {
+			jwtV = op.NewJWTProfileVerifier(storage, issuer, v.MaxIAT, v.Offset, check)
+		} else {
+			jwtV = op.NewJWTProfileVerifierKeySet(ksObj, issuer, v.MaxIAT, v.Offset, check)
+		}
+		kindCoq = emit.Ctor("VJWTAssertion", emit.Bool(deleg))
+	case "ro":
+		kindCoq = emit.Ctor("VRequestObject", emit.Ctor("mkAuthReq", emit.Str(client), emit.Str("code"), emit.Str("n0"), emit.Str("s0")))
+	}
+
+	n := 2 + r.IntN(3)
+	var steps, obs, hows []string
+	amb, hang := false, false
+	pan := ""
+	for st := 0; st < n && pan == "" && !hang; st++ {
+		var t tok.Token
+		var m tok.Middle
+		how := ""
+		x := r.IntN(20)
+		if st == 0 && r.Chance(3, 4) {
+			x = 0
+		}
+		switch {
+		case x < 8: // a family member as it was signed (rarely the stranger's)
+			i := r.IntN(known)
+			if len(fam) > known && r.Chance(1, 6) {
+				i = known
+			}
+			t, m, how = fam[i].t, fam[i].m, fmt.Sprintf("genuine%d", i)
+		case x < 18: // exactly one segment from another member
+			b := fam[r.IntN(known)]
+			o := drv.Pick(r, fam)
+			if o.t.Raw == b.t.Raw {
+				o = fam[1]
+				if o.t.Raw == b.t.Raw {
+					o = fam[0]
+				}
+			}
+			switch r.IntN(3) {
+			case 0:
+				t, m = tok.Splice(o.t, b.t, b.m, b.t)
+				how = "swap_header"
+			case 1:
+				t, m = tok.Splice(b.t, o.t, o.m, b.t)
+				how = "swap_payload"
+			default:
+				t, m = tok.Splice(b.t, b.t, b.m, o.t)
+				how = "swap_signature"
+			}
+		default:
+			a, b, cc := drv.Pick(r, fam), drv.Pick(r, fam), drv.Pick(r, fam)
+			t, m = tok.Splice(a.t, b.t, b.m, cc.t)
+			how = "cross"
+		}
+		hows = append(hows, how)
+		ctx, cancel := context.WithTimeout(context.Background(), 5*time.Second)
+		var o string
+		t0 := time.Now().UnixNano()
+		pan = drv.Catch(func() {
+			switch kind {
+			case "rp":
+				out, err := rp.VerifyIDToken[*oidc.IDTokenClaims](ctx, t.Raw, rpV)
+				o = idOutcome(out, err)
+			case "at":
+				out, err := op.VerifyAccessToken[*oidc.AccessTokenClaims](ctx, t.Raw, atV)
+				if out != nil {
+					cl, alg := tok.FromAccessToken(out)
+					o = tok.Outcome(&cl, alg, err)
+				} else {
+					o = tok.Outcome(nil, "", err)
+				}
+			case "hint":
+				out, err := op.VerifyIDTokenHint[*oidc.IDTokenClaims](ctx, t.Raw, hintV)
+				o = idOutcome(out, err)
+			case "jwt":
+				out, err := op.VerifyJWTAssertion(ctx, t.Raw, jwtV)
+				o = jwtOutcome(out, err)
+			case "ro":
+				ar := &oidc.AuthRequest{ClientID: client, ResponseType: "code", Nonce: "n0", State: "s0", Scopes: []string{"openid"}, RequestParam: t.Raw}
+				err := op.ParseRequestObject(ctx, ar, storage, issuer)
+				if err == nil {
+					cl := tok.Claims{Nonce: ar.Nonce, Extra: ar.State, ClientID: ar.ClientID, RType: string(ar.ResponseType)}
+					o = tok.Outcome(&cl, "", nil)
+				} else {
+					o = tok.Outcome(nil, "", err)
+				}
+			}
+		})
+		t1 := time.Now().UnixNano()
+		cancel()
+		if ksObj != nil && !tok.WaitIdle(ksObj) {
+			hang = true
+		}
+		if tok.TimeView(v, m.C, t0) != tok.TimeView(v, m.C, t1) {
+			amb = true
+		}
+		obs = append(obs, o)
+		steps = append(steps, emit.Ctor("mkVStep", t.Coq(), m.Coq(), emit.Z(t0), emit.Z(t1)))
+	}
+	if amb {
+		g.amb++
+		return
+	}
+	o := emit.Ctor("OVerifySeq", emit.List(obs))
+	if pan != "" || hang {
+		o = "OPanic"
+	}
+	in := emit.Ctor("IVerifySeq", kindCoq, v.Coq(), ks.Coq(), emit.List(steps))
+	tags := []string{"kind=instanceseq", "v=" + kind, "ks=" + ks.Kind, fmt.Sprintf("steps=%d", n), "alg=" + alg1, "alg2=" + alg2}
+	if ks.Kind == "remote" {
+		tags = append(tags, fmt.Sprintf("warm=%v", len(ks.Cached) > 0))
+	}
+	seen := map[string]bool{}
+	for i, h := range hows {
+		if len(h) > 7 && h[:7] == "genuine" {
+			h = "genuine"
+		}
+		if i == 0 {
+			tags = append(tags, "first="+h)
+		}
+		if !seen[h] {
+			seen[h] = true
+			tags = append(tags, "has_"+h+"=1")
+		}
+	}
+	g.w.Add(emit.Case{Input: in, Observed: o, Tags: tags, Human: map[string]any{"verifier": kind, "steps": hows}})
+}
+
 // ---------------------------------------------------------------- provider options
 
 // customKeySet builds a caller-supplied key set around key (mostly containing it).
@@ -1020,11 +1446,13 @@ func (g *gen) providerCase() {
 	}
 	hint := r.Bool()
 	var atKS, hintKS *tok.KeySetDesc
-	if r.Bool() {
+	// which key set options are given: none / only one of them (twice as often) / both
+	optPat := drv.Pick(r, []string{"none", "at", "at", "hint", "hint", "both"})
+	if optPat == "at" || optPat == "both" {
 		d := g.customKeySet(keyAT, kid)
 		atKS = &d
 	}
-	if r.Bool() {
+	if optPat == "hint" || optPat == "both" {
 		d := g.customKeySet(keyH, kid)
 		hintKS = &d
 	}
@@ -1045,11 +1473,22 @@ func (g *gen) providerCase() {
 		hintAlgs, hintClass = nil, "empty"
 	}
 	// the token: signed by the key of one of the three sets
-	who := drv.Pick(r, []string{"storage", "at", "hint"})
+	// flow first: the token for one verifier is signed by a key of one of the three
+	// sets, the OTHER verifier's set being the interesting one
+	who := drv.Pick(r, []string{"storage", "at", "hint", map[bool]string{true: "at", false: "hint"}[hint]})
 	signer := map[string]*tok.Key{"storage": keyS, "at": keyAT, "hint": keyH}[who]
+	// the issuer comes from the request context (dynamic issuer): tenants differ
+	issuer := drv.Pick(r, []string{issuer, issuer, issuer, "https://tenant-b.example.com", issuer + "/"})
+	tokIss := issuer
+	if r.Chance(1, 10) {
+		tokIss = drv.Pick(r, []string{"https://op.example.com", "https://tenant-b.example.com", "https://op.example.com/", "https://OP.example.com"})
+	}
 	now := time.Now().Unix()
-	c := tok.Claims{Iss: issuer, Sub: "user-1", Aud: []string{"client-a"}, Azp: "client-a", Exp: now + 3600, Iat: now - 10, ClientID: "client-a", Extra: fmt.Sprintf("p%d", r.IntN(10000))}
+	c := tok.Claims{Iss: tokIss, Sub: "user-1", Aud: []string{"client-a"}, Azp: "client-a", Exp: now + 3600, Iat: now - 10, ClientID: "client-a", Extra: fmt.Sprintf("p%d", r.IntN(10000))}
 	claimMut := "none"
+	if tokIss != issuer {
+		claimMut = "iss_other_tenant"
+	}
 	switch x := r.IntN(20); {
 	case x < 2:
 		c.Exp, claimMut = now-3600, "expired"
@@ -1082,7 +1521,11 @@ func (g *gen) providerCase() {
 	var obs string
 	var t0, t1 int64
 	pan := drv.Catch(func() {
-		prov, err := op.NewProvider(&op.Config{CryptoKey: [32]byte{1}}, &tok.FakeStorage{Keys: storage}, op.StaticIssuer(issuer), opts...)
+		issFn := op.StaticIssuer(baseIssuer)
+		if issuer != baseIssuer { // a provider whose issuer is taken from each request
+			issFn = op.IssuerFromHost("")
+		}
+		prov, err := op.NewProvider(&op.Config{CryptoKey: [32]byte{1}}, &tok.FakeStorage{Keys: storage}, issFn, opts...)
 		if err != nil {
 			panic("NewProvider: " + err.Error())
 		}
@@ -1131,7 +1574,7 @@ func (g *gen) providerCase() {
 		emit.Bool(hint), t.Coq(), m.Coq(), emit.Z(t0), emit.Z(t1))
 	g.w.Add(emit.Case{Input: in, Observed: obs,
 		Tags: []string{"kind=provider", fmt.Sprintf("verifier_hint=%v", hint), fmt.Sprintf("opt_at_keyset=%v", atKS != nil), fmt.Sprintf("opt_hint_keyset=%v", hintKS != nil),
-			fmt.Sprintf("opt_at_opts=%v", setAT), fmt.Sprintf("opt_hint_opts=%v", setHint), "allow_at=" + atClass, "allow_hint=" + hintClass, "signer=" + who, "alg=" + alg, "mut=" + mut, "claims=" + claimMut},
+			fmt.Sprintf("opt_at_opts=%v", setAT), fmt.Sprintf("opt_hint_opts=%v", setHint), fmt.Sprintf("dynamic_issuer=%v", issuer != baseIssuer), "allow_at=" + atClass, "allow_hint=" + hintClass, "signer=" + who, "alg=" + alg, "mut=" + mut, "claims=" + claimMut},
 		Human: map[string]any{"token": t.Raw, "signer": who, "hint": hint}})
 }
 
@@ -1171,10 +1614,11 @@ func main() {
 	g.pool = tok.NewPool(g.r)
 	tok.SetWarm(g.pool)
 	g.w = emit.NewWriter(cfg.Out, "C02_spec", shardSize(cfg), cfg.Only)
-	n := cfg.Count(660, 16500)
+	n := cfg.Count(840, 21000)
 	kinds := []string{"rp", "at", "hint", "jwt", "ro"}
+	seqKinds := []string{"rp", "at", "rp", "hint", "jwt", "rp", "ro"} // the stateful key set most often
 	for i := 0; i < n; i++ {
-		switch i % 11 {
+		switch i % 14 {
 		case 0:
 			g.findCase()
 		case 1, 2:
@@ -1183,10 +1627,12 @@ func main() {
 			g.remoteSeqCase()
 		case 9:
 			g.verifySeqCase()
-		case 10:
+		case 10, 11:
 			g.providerCase()
+		case 12, 13:
+			g.instanceSeqCase(seqKinds[(i/14+3*(i%14-12))%len(seqKinds)])
 		default:
-			g.verifyCase(kinds[i%11-3])
+			g.verifyCase(kinds[i%14-3])
 		}
 	}
 	err := g.w.Close(emit.Meta{Property: "C02", Tier: cfg.Tier, Seed: cfg.Seed,
